@@ -161,10 +161,16 @@ def run(tier: str, opts: dict) -> int:
 def _write_pins(prop, new_pins, unclassified, replace=False):
     if unclassified:
         print(f"{len(unclassified)} disagreements are not covered by any triaged finding class - pins NOT written")
-        seen = 0
-        for key, r in sorted(unclassified, key=lambda x: len(x[0]))[:40]:
-            print("  ", key)
-            print("      ", json.dumps({k: r[k] for k in ("delta", "obs") if k in r}, default=str)[:400])
+        groups = {}
+        for key, r in sorted(unclassified, key=lambda x: len(x[0])):
+            d = r.get("delta", {})
+            sig = (key.split("|")[0], r.get("bad"), tuple(sorted((k, len(v) > 0) for k, v in d.items())), (r.get("obs") or {}).get("exception"))
+            groups.setdefault(sig, []).append((key, r))
+        for sig, items in sorted(groups.items(), key=lambda kv: -len(kv[1]))[:25]:
+            print(f"== {len(items)} x {sig}")
+            for key, r in items[: int(os.environ.get("VMC_SHOW", "3"))]:
+                print("  ", key)
+                print("      ", json.dumps({k: r[k] for k in ("delta", "obs") if k in r}, default=str)[:500])
         return 1
     os.makedirs(common.PINS_DIR, exist_ok=True)
     path = os.path.join(common.PINS_DIR, prop + ".json")
